@@ -20,21 +20,22 @@ import (
 )
 
 type desc struct {
-	Cfg      servlib.Cfg `json:"cfg"`
-	NPre     int         `json:"npre"`             // ordinary requests before the hijacking one
-	NoResp   bool        `json:"noresp,omitempty"` // HijackSetNoResponse(true)
-	ConnOpt  string      `json:"connopt,omitempty"`
-	V10      bool        `json:"v10,omitempty"`
-	Pipe     bool        `json:"pipe,omitempty"`  // all requests in one write
-	Same     hlib.B      `json:"same,omitempty"`  // bytes sent in the same write as the hijacking request
-	Later    []hlib.B    `json:"later,omitempty"` // further writes
-	HjIn     int         `json:"hjin"`            // bytes read inside the handler (-1: to EOF)
-	Late     bool        `json:"late,omitempty"`
-	SetClose bool        `json:"setclose,omitempty"` // the handler also calls SetConnectionClose
-	Body     hlib.B      `json:"body,omitempty"`     // the hijacking request is a POST with this body
-	Expect   bool        `json:"expect,omitempty"`   // ... announced with Expect: 100-continue
-	Timeout  bool        `json:"timeout,omitempty"`  // the handler also calls TimeoutError (the hijack is dropped)
-	Toggle   bool        `json:"toggle,omitempty"`   // HijackSetNoResponse(true) then (false); Hijack called twice
+	Cfg      servlib.Cfg    `json:"cfg"`
+	NPre     int            `json:"npre"`             // ordinary requests before the hijacking one
+	NoResp   bool           `json:"noresp,omitempty"` // HijackSetNoResponse(true)
+	ConnOpt  string         `json:"connopt,omitempty"`
+	V10      bool           `json:"v10,omitempty"`
+	Pipe     bool           `json:"pipe,omitempty"`  // all requests in one write
+	Same     hlib.B         `json:"same,omitempty"`  // bytes sent in the same write as the hijacking request
+	Later    []hlib.B       `json:"later,omitempty"` // further writes
+	HjIn     int            `json:"hjin"`            // bytes read inside the handler (-1: to EOF)
+	Late     bool           `json:"late,omitempty"`
+	SetClose bool           `json:"setclose,omitempty"` // the handler also calls SetConnectionClose
+	Body     hlib.B         `json:"body,omitempty"`     // the hijacking request is a POST with this body
+	Expect   bool           `json:"expect,omitempty"`   // ... announced with Expect: 100-continue
+	Timeout  bool           `json:"timeout,omitempty"`  // the handler also calls TimeoutError (the hijack is dropped)
+	Toggle   bool           `json:"toggle,omitempty"`   // HijackSetNoResponse(true) then (false); Hijack called twice
+	PreOps   [][]servlib.Op `json:"preops,omitempty"`   // what the handlers of the earlier (non-hijacking) requests do: hijack-related state left behind in the ctx
 }
 
 const marker = "\x00HJ\x00"
@@ -61,6 +62,9 @@ func (d desc) scenario() (servlib.Scenario, int, int) {
 		ops = append(ops, servlib.Op{K: "noresp", N: 1}, servlib.Op{K: "hijack"}, servlib.Op{K: "noresp", N: 0})
 	}
 	sc.Ops[n-1] = ops
+	for i := 0; i < d.NPre && i < len(d.PreOps); i++ {
+		sc.Ops[i] = d.PreOps[i]
+	}
 	reqlen := 0
 	var pending []byte
 	for i := 1; i <= n; i++ {
@@ -132,6 +136,15 @@ func corpus() []desc {
 						desc{Cfg: cfg, NoResp: nr, HjIn: -1, Timeout: true, Same: randBytes(r, 10)},
 						desc{Cfg: cfg, NoResp: nr, HjIn: -1, Toggle: true, Same: randBytes(r, 10)},
 					)
+					// earlier requests on the connection leave hijack-related ctx state behind
+					for _, pre := range [][]servlib.Op{{{K: "noresp", N: 1}}, {{K: "noresp", N: 1}, {K: "status", N: 400}}, {{K: "noresp", N: 1}, {K: "noresp", N: 0}},
+						{{K: "noresp", N: 1}, {K: "timeout"}}, {{K: "hijack"}, {K: "timeout"}}, {{K: "noresp", N: 1}, {K: "error", N: 500}}} {
+						if nr || sc {
+							break
+						}
+						c = append(c, desc{Cfg: cfg, NoResp: nr, HjIn: -1, NPre: 1, PreOps: [][]servlib.Op{pre}, Same: randBytes(r, 12)},
+							desc{Cfg: cfg, NoResp: nr, HjIn: -1, NPre: 2, Pipe: true, PreOps: [][]servlib.Op{pre, nil}, Same: randBytes(r, 12)})
+					}
 					sb := cfg
 					sb.StreamBody = true
 					c = append(c, desc{Cfg: sb, NoResp: nr, HjIn: -1, Body: []byte("0123456789"), Same: randBytes(r, 20), Later: []hlib.B{randBytes(r, 10)}},
@@ -154,6 +167,16 @@ func gen(r *rand.Rand, i int) desc {
 	d.NPre = r.Intn(3)
 	d.NoResp = r.Intn(3) == 0
 	d.Pipe = r.Intn(3) == 0
+	for i := 0; i < d.NPre; i++ {
+		var pre []servlib.Op
+		if r.Intn(2) == 0 {
+			pre = append(pre, servlib.Op{K: "noresp", N: r.Intn(2)})
+			if r.Intn(3) == 0 {
+				pre = append(pre, hlib.Pick(r, []servlib.Op{{K: "timeout"}, {K: "error", N: 500}, {K: "status", N: 404}, {K: "noresp", N: 0}}))
+			}
+		}
+		d.PreOps = append(d.PreOps, pre)
+	}
 	switch r.Intn(12) {
 	case 0:
 		d.ConnOpt = "close"
